@@ -47,6 +47,14 @@ import (
 // amount >= MinVoteOutputAmount, 64-byte vote key; label suffix @veto) and as an ISSUANCE whose issuance program
 // is that witness-form program (label suffix @issuance): NewTxVMContext must convert the program for all of them.
 //
+// Huge-witness share: every lock is also spent / vetoed with tens of thousands of empty / 1- / 2-byte witness
+// arguments (around and above MaxGasAmount/8 of them) and NO signature, or the valid witness buried under / on top
+// of them; the text is the real serialization (real storage gas) and the fee buys the maximal gas.
+// Oracle `C02:accepted-without-valid-witness` (c02satisfied): for EVERY accepted transaction of the stream, each
+// input locked by a standard program is re-judged without the implementation — standard-library Ed25519 over
+// bc.Tx.SigHash, hash of the presented key / script against the committed one, the ordered matching of the m
+// signatures below the script — and must be satisfied.
+//
 // Signature malleability share: every valid signature R||S of a witness is also offered as its
 // non-canonical twins R||(S+kL) (L = group order; k = 1.. while it fits 256 bits), with each of the
 // three top bits of S set, and with R re-encoded non-canonically (y+p, possible only for y < 19);
@@ -464,6 +472,73 @@ func c02consumed(in *types.TxInput) [][]byte {
 	return nil
 }
 
+
+// c02satisfied decides, WITHOUT the implementation (standard-library Ed25519, the hashes of the witness
+// bytes), whether the witness of input i satisfies its standard lock: P2WPKH — the top item is a 32-byte key
+// with the committed hash160 and the item below it a signature of this input's signature hash under that key;
+// P2WSH of TXSIGHASH <keys> m n CHECKMULTISIG — the top item is a script with the committed hash, and the m
+// items below it match, in order, a subsequence of its 32-byte keys. known = false for anything else
+// (non-standard program or redeem script): no verdict.
+func c02satisfied(tx *types.Tx, i int) (ok bool, known bool) {
+	in := tx.Inputs[i]
+	args := in.Arguments()
+	prog := in.ControlProgram()
+	n := len(args)
+	msg := tx.SigHash(uint32(i)).Bytes()
+	switch {
+	case segwit.IsP2WPKHScript(prog):
+		h, err := segwit.GetHashFromStandardProg(prog)
+		if err != nil {
+			return false, false
+		}
+		if n < 2 {
+			return false, true
+		}
+		pk, sg := args[n-1], args[n-2]
+		return len(pk) == 32 && bytes.Equal(crypto.Ripemd160(pk), h) && ed25519.Verify(ed25519.PublicKey(pk), msg, sg), true
+	case segwit.IsP2WSHScript(prog):
+		h, err := segwit.GetHashFromStandardProg(prog)
+		if err != nil {
+			return false, false
+		}
+		if n < 1 || !bytes.Equal(crypto.Sha256(args[n-1]), h) {
+			return false, true
+		}
+		insts, err := vm.ParseProgram(args[n-1])
+		if err != nil || len(insts) < 4 || insts[0].Op != vm.OP_TXSIGHASH || insts[len(insts)-1].Op != vm.OP_CHECKMULTISIG {
+			return false, false
+		}
+		keys := insts[1 : len(insts)-3]
+		mi, err1 := vm.AsBigInt(insts[len(insts)-3].Data)
+		ni, err2 := vm.AsBigInt(insts[len(insts)-2].Data)
+		if err1 != nil || err2 != nil || !mi.IsUint64() || !ni.IsUint64() || ni.Uint64() != uint64(len(keys)) {
+			return false, false
+		}
+		for _, k := range keys {
+			if len(k.Data) != 32 || !k.IsPushdata() {
+				return false, false
+			}
+		}
+		m := int(mi.Uint64())
+		if m > len(keys) || (len(keys) > 0 && m == 0) || m > n-1 {
+			return false, true
+		}
+		sigs := args[n-1-m : n-1]
+		ki := 0
+		for _, sg := range sigs {
+			for ki < len(keys) && !ed25519.Verify(ed25519.PublicKey(keys[ki].Data), msg, sg) {
+				ki++
+			}
+			if ki == len(keys) {
+				return false, true
+			}
+			ki++
+		}
+		return true, true
+	}
+	return false, false
+}
+
 func c02noConverter(prog []byte) ([]byte, error) { return nil, errors.New("no contract converter") }
 
 func c02run(c *Ctx, bv, bh uint64, text string, label string) string {
@@ -507,6 +582,11 @@ func c02run(c *Ctx, bv, bh uint64, text string, label string) string {
 	}
 	c.Count("mutation:" + cls)
 	if verdict == "ok" && tx.Tx != nil {
+		for i := range tx.Inputs {
+			if sat, known := c02satisfied(tx, i); known && !sat {
+				c.Fail("C02:accepted-without-valid-witness", fmt.Sprintf("%s: input %d (%d witness items) accepted although its witness does not carry the signatures its standard lock asks for", label, i, len(tx.Inputs[i].Arguments())))
+			}
+		}
 		for i, in := range tx.Inputs {
 			for _, sg := range c02consumed(in) {
 				if c02nonCanonical(sg) {
@@ -1191,6 +1271,76 @@ func c02smallOrder(c *Ctx, k int) []struct {
 	return out
 }
 
+
+// ---- huge witnesses: tens of thousands of tiny witness arguments, no (or a buried) signature
+
+var c02hugeVariants = []struct {
+	n      int  // number of filler arguments
+	w      int  // their length
+	sig    byte // 'n' no signature at all, 't' the valid witness on TOP of the filler, 'b' the valid witness BELOW it
+	veto   bool
+	lowFee bool // fee too small for the storage gas of such a transaction
+}{
+	{37501, 0, 'n', false, false}, // 8*37501 = 300008 > MaxGasAmount: loading the witness alone exhausts any gas
+	{37500, 0, 'n', false, false}, // exactly MaxGasAmount
+	{37499, 0, 'n', true, false},
+	{37501, 0, 'n', true, false},
+	{33334, 1, 'n', false, false}, // 9*33334 = 300006
+	{33333, 1, 'n', true, false},
+	{50000, 0, 'n', false, false},
+	{37501, 0, 't', false, false}, // the right signature on top of the filler: still not affordable
+	{37501, 0, 'b', true, false},
+	{40000, 0, 'n', false, true},
+	{20000, 2, 'n', true, false}, // 10*20000 = 200000: affordable, the program runs on filler
+	{65000, 0, 't', true, false},
+}
+
+// a lock spent (or vetoed) with a huge witness; the text is the real serialization, so the storage gas is real;
+// the fee buys the maximal gas (MaxGasAmount) unless lowFee
+func c02hugeWitness(c *Ctx, lock *c02lock, k int) (*types.TxData, string) {
+	v := c02hugeVariants[k%len(c02hugeVariants)]
+	btm := *consensus.BTMAssetID
+	fee := uint64(consensus.MaxGasAmount*consensus.VMGasRate) + 1000000
+	if v.lowFee {
+		fee = 200 * 20000
+	}
+	amt := fee + 5000
+	td := &types.TxData{Version: 1}
+	if v.veto {
+		amt += consensus.MinVoteOutputAmount
+		vote := make([]byte, 64)
+		c.Rng.Read(vote)
+		td.Inputs = []*types.TxInput{types.NewVetoInput(nil, c02hash(c), btm, amt, 0, lock.prog, vote, nil)}
+	} else {
+		td.Inputs = []*types.TxInput{types.NewSpendInput(nil, c02hash(c), btm, amt, 0, lock.prog, nil)}
+	}
+	td.Outputs = []*types.TxOutput{types.NewOriginalTxOutput(btm, amt-fee, []byte{byte(vm.OP_TRUE)}, nil)}
+	filler := make([][]byte, v.n)
+	for i := range filler {
+		filler[i] = make([]byte, v.w)
+		for j := range filler[i] {
+			filler[i][j] = byte(1 + c.Rng.Intn(255))
+		}
+	}
+	var args [][]byte
+	lab := "R"
+	switch v.sig {
+	case 'n':
+		args = filler
+	case 't':
+		args = append(filler, lock.witness(types.MapTx(td).SigHash(0).Bytes())...)
+		lab = "X" // a valid witness the transaction cannot pay for: the code's answer is left to the correspondence
+	case 'b':
+		args = append(lock.witness(types.MapTx(td).SigHash(0).Bytes()), filler...)
+	}
+	td.Inputs[0].SetArguments(args)
+	kind := "spend"
+	if v.veto {
+		kind = "veto"
+	}
+	return td, fmt.Sprintf("%s/hugewitness.%s.%s.%dx%d.sig%c.low%v", lab, lock.kind, kind, v.n, v.w, v.sig, v.lowFee)
+}
+
 // mutations of the witness of input 0 (signatures, keys, redeem script, argument list)
 func c02witnessLabel(l string) bool {
 	if i := strings.Index(l, "/"); i >= 0 {
@@ -1224,7 +1374,7 @@ func c02replayLine(c *Ctx, line string) {
 }
 
 func runC02(c *Ctx) {
-	c.Rule = "for P2WPKH and P2WSH-of-multisig m-of-n (all 1<=m<=n<=6) with fresh chainkd keys (RootXPrv + non-hardened derivation), a transaction of one of three shapes (single BTM input; asset input + BTM gas input; with a retirement output) — and, for the same lock, a VETO of a vote output carrying that control program and an ISSUANCE whose issuance program is that witness-form program — is built with the repository's program builders, signed over bc.Tx.SigHash, serialized, decoded with Tx.UnmarshalText and validated with validation.ValidateTx; then every single mutation of c02mutations (signatures, keys, redeem script, witness-only fields, every committed field, orders, added/dropped/duplicated inputs and outputs) is applied to a fresh copy; plus P2WSH of hand-made scripts (m>n, m=0, 0-of-0, short message, short key, repeated key, huge n, low gas) for the correspondence; malleability share: every valid signature also as R||(S+kL) for all k that fit 256 bits, with each top bit of S set, R with flipped sign / non-canonical y, and outputs locked to small-order / non-canonically encoded keys spent with (identity,0), (identity,L), (non-canonical identity,0); the Ed25519 oracle table is computed with the standard library verifier of the harness module, canonicity is decided from the bytes"
+	c.Rule = "for P2WPKH and P2WSH-of-multisig m-of-n (all 1<=m<=n<=6) with fresh chainkd keys (RootXPrv + non-hardened derivation), a transaction of one of three shapes (single BTM input; asset input + BTM gas input; with a retirement output) — and, for the same lock, a VETO of a vote output carrying that control program and an ISSUANCE whose issuance program is that witness-form program — is built with the repository's program builders, signed over bc.Tx.SigHash, serialized, decoded with Tx.UnmarshalText and validated with validation.ValidateTx; then every single mutation of c02mutations (signatures, keys, redeem script, witness-only fields, every committed field, orders, added/dropped/duplicated inputs and outputs) is applied to a fresh copy; plus P2WSH of hand-made scripts (m>n, m=0, 0-of-0, short message, short key, repeated key, huge n, low gas) for the correspondence; malleability share: every valid signature also as R||(S+kL) for all k that fit 256 bits, with each top bit of S set, R with flipped sign / non-canonical y, and outputs locked to small-order / non-canonically encoded keys spent with (identity,0), (identity,L), (non-canonical identity,0); the Ed25519 oracle table is computed with the standard library verifier of the harness module, canonicity is decided from the bytes; huge-witness share: each lock spent / vetoed with 20000-65000 empty, 1- or 2-byte arguments (around MaxGasAmount/8) without a signature or with the valid witness under / on top of them; every accepted input of a standard lock is re-judged independently (c02satisfied)"
 	if c.Replay != "" {
 		for _, l := range c.ReplayLines() {
 			c02replayLine(c, l)
@@ -1307,6 +1457,10 @@ func runC02(c *Ctx) {
 		}
 		for _, so := range c02smallOrder(c, k) {
 			c02run(c, bv, bh, c02text(so.td), so.label)
+		}
+		if (c.Tier == "quick" && k%2 == 0) || (c.Tier != "quick" && k%3 == 0) {
+			td, lab := c02hugeWitness(c, lock, k/2+k/3)
+			c02run(c, bv, bh, c02text(td), lab)
 		}
 	}
 }
